@@ -27,7 +27,7 @@ def build(y0s, y1s, place):
     w.mods = [gtirb.Module(name="m0", uuid=UUID(int=10), ir=w.ir), gtirb.Module(name="m1", uuid=UUID(int=11), ir=w.ir)]
     w.sec = gtirb.Section(name="s", uuid=UUID(int=20))
     w.bi = gtirb.ByteInterval(size=4, uuid=UUID(int=30), section=w.sec)
-    w.b0 = gtirb.CodeBlock(size=1, uuid=UUID(int=40), byte_interval=w.bi)
+    w.b0 = gtirb.CodeBlock(size=SHARD.get("b0size", 1), uuid=UUID(int=40), byte_interval=w.bi)
     w.p0 = gtirb.ProxyBlock(uuid=UUID(int=50))
     if place[0]:
         w.sec.module = w.mods[place[0] - 1]
@@ -75,6 +75,14 @@ def ops(w):
         nm = "None" if m is None else "m%d" % (j - 1)
         op("p0.module=%s" % nm, lambda m=m: setattr(w.p0, "module", m))
         op("sec.module=%s" % nm, lambda m=m: setattr(w.sec, "module", m))
+    op("m0.proxies.add(p0)", lambda: m0.proxies.add(w.p0))
+    op("m1.proxies.add(p0)", lambda: m1.proxies.add(w.p0))
+    op("m0.proxies.discard(p0)", lambda: m0.proxies.discard(w.p0))
+    op("m0.sections.add(sec)", lambda: m0.sections.add(w.sec))
+    op("m1.sections.update([sec])", lambda: m1.sections.update([w.sec]))
+    op("m0.sections.clear()", lambda: m0.sections.clear())
+    op("b0.size=0", lambda: setattr(w.b0, "size", 0))
+    op("b0.size=2", lambda: setattr(w.b0, "size", 2))
     op("bi.section=None", lambda: setattr(w.bi, "section", None))
     op("bi.section=sec", lambda: setattr(w.bi, "section", w.sec))
     op("b0.byte_interval=None", lambda: setattr(w.b0, "byte_interval", None))
@@ -127,6 +135,7 @@ def run(y0s, y1s, place, opis):
     return None, ";".join(names)
 
 
+SHARD.setdefault("b0size", 1)
 N_OPS = len(ops(build((0, 0, 0), (0, 0, 0), (0, 0))))
 Y1_QUICK = [(1, 1, 3), (2, 1, 2), (1, 0, 4)]
 
@@ -177,14 +186,19 @@ def shards(tier):
     chunk = 3
     if tier == "quick":
         for lo in range(0, N_OPS, chunk):
-            out.append({"fn": "step", "consts": {"full_y1": 0, "nz": len(Y1_QUICK), "op_lo": lo, "nops": min(chunk, N_OPS - lo), "nops2": 1},
+            out.append({"fn": "step", "consts": {"full_y1": 0, "nz": len(Y1_QUICK), "op_lo": lo, "nops": min(chunk, N_OPS - lo), "nops2": 1,
+                                                 "b0size": (lo // chunk) % 2},
                         "timeout": 900, "twin": "first", "cover": "first"})
+        # two operations in sequence on a reduced pre-state set (leave-and-return sequences)
+        for lo in range(0, N_OPS, 2):
+            out.append({"fn": "step", "consts": {"full_y1": 0, "nz": len(Y1_QUICK), "op_lo": lo, "nops": min(2, N_OPS - lo), "nops2": N_OPS, "b0size": 1},
+                        "timeout": 900, "twin": False, "cover": False})
     else:
         for y1m in range(3):
             for lo in range(0, N_OPS, chunk):
-                out.append({"fn": "step", "consts": {"full_y1": 1, "y1m": y1m, "nz": 3 * NPAY, "op_lo": lo, "nops": min(chunk, N_OPS - lo), "nops2": 1},
+                out.append({"fn": "step", "consts": {"full_y1": 1, "y1m": y1m, "nz": 3 * NPAY, "op_lo": lo, "nops": min(chunk, N_OPS - lo), "nops2": 1, "b0size": (lo // chunk + y1m) % 2},
                             "timeout": 1800, "twin": "first", "cover": "first"})
         for lo in range(0, N_OPS, 1):
-            out.append({"fn": "step", "consts": {"full_y1": 0, "nz": len(Y1_QUICK), "op_lo": lo, "nops": 1, "nops2": N_OPS},
+            out.append({"fn": "step", "consts": {"full_y1": 0, "nz": len(Y1_QUICK), "op_lo": lo, "nops": 1, "nops2": N_OPS, "b0size": lo % 2},
                         "timeout": 1800, "twin": False, "cover": False})
     return out
